@@ -500,6 +500,10 @@ func cliExec(c *Ctx, op string) {
 		args = append(args, s)
 	}
 	cmd := exec.Command(bin, args...)
+	if len(args) > 0 && args[0] == "@GONE@" { // started in a working directory that has been removed meanwhile
+		args = args[1:]
+		cmd = exec.Command("sh", append([]string{"-c", `mkdir gone-cwd && cd gone-cwd && rmdir ../gone-cwd && exec "$0" "$@"`, bin}, args...)...)
+	}
 	cmd.Env = env
 	cmd.Dir = base
 	var stdout, stderr bytes.Buffer
@@ -669,11 +673,64 @@ func cliEngine(c *Ctx) {
 				[]string{"--format=json", "pack", fm, "/dev/null", "--filters", fl, "--target=ca+file://@W@/wh"}, []string{"pack", fm, "@W@/special/fifo", "--filters", fl})
 		}
 	}
+	// relative paths and addresses when the working directory is gone
+	vecs = append(vecs, []string{"@GONE@", "scan", "tar", "--source=file://rel/x.tar"}, []string{"@GONE@", "scan", "zip", "--source=ca+file://relwh"},
+		[]string{"@GONE@", "unpack", tid, "rel/target", "--source=ca+file://relwh"}, []string{"@GONE@", "unpack", tid, "rel/target", "--source=ca+file://@W@/wh", "--placer=direct"},
+		[]string{"@GONE@", "--format=json", "unpack", "@GOODID@", "rel/target", "--source=ca+file://@W@/wh", "--placer=direct"},
+		[]string{"@GONE@", "pack", "tar", "."}, []string{"@GONE@", "pack", "tar", "@W@/src", "--target=file://rel/t.tgz"}, []string{"@GONE@", "pack", "zip", "@W@/src", "--target=ca+file://relwh"},
+		[]string{"@GONE@", "mirror", "@GOODID@", "--target=ca+file://relwh", "--source=ca+file://@W@/wh"}, []string{"@GONE@", "mirror", "@GOODID@", "--target=ca+file://@W@/wh2", "--source=file://rel/ware"})
 	for _, v := range vecs {
 		cliExec(c, mk(v...))
 	}
+	libPlacementModes(c)
 	if brokenSrv != nil {
 		brokenSrv.Close()
 		brokenSrv = nil
+	}
+}
+
+// libPlacementModes: the library entry points take any rio.PlacementMode (a string type): every value is answered with a
+// categorized error or a success, never a panic.
+func libPlacementModes(c *Ctx) {
+	caseCounter++
+	base := filepath.Join(c.Work, fmt.Sprintf("lpm%d", caseCounter))
+	defer rmrf(base)
+	src, wh := filepath.Join(base, "src"), filepath.Join(base, "wh")
+	os.MkdirAll(src, 0755)
+	os.MkdirAll(wh, 0755)
+	os.WriteFile(filepath.Join(src, "f"), []byte("x"), 0644)
+	os.Setenv("RIO_CACHE", filepath.Join(base, "cache"))
+	os.Setenv("RIO_BASE", filepath.Join(base, "riobase"))
+	ctx := context.Background()
+	for _, fm := range []string{"tar", "zip"} {
+		fn := funcsFor(fm)
+		id, err := fn.pack(ctx, api.PackType(fm), src, api.MustParseFilesetPackFilter(losslessPackStr), whAddr("ca", wh), rio.Monitor{})
+		if err != nil {
+			continue
+		}
+		for _, pm := range []rio.PlacementMode{rio.Placement_Copy, rio.Placement_Mount, rio.Placement_Direct, "", "bogus", "none "} {
+			op := fmt.Sprintf("lib-placement %s %q", fm, string(pm))
+			_, e1, p1 := safeCall(func() (api.WareID, error) {
+				return fn.scan(ctx, api.PackType(fm), api.MustParseFilesetUnpackFilter(losslessUnpackStr), pm, api.WarehouseLocation("file://"+storedWarePath("ca", wh, id)), rio.Monitor{})
+			})
+			if p1 != "" {
+				c.PropFail("panic-scan", fmt.Sprintf("Scan with placement mode %q panicked: %s", string(pm), p1), op)
+			} else if e1 != nil && strings.HasPrefix(catOf(e1), "uncategorized") {
+				c.PropFail("uncategorized-error", fmt.Sprintf("Scan with placement mode %q: %v", string(pm), e1), op)
+			}
+			if pm == rio.Placement_Mount {
+				continue // a real mount: covered elsewhere, and left mounted here
+			}
+			_, e2, p2 := safeCall(func() (api.WareID, error) {
+				return fn.unpack(ctx, id, filepath.Join(base, "dst-"+fm+"-"+fmt.Sprint(len(pm))), api.MustParseFilesetUnpackFilter(losslessUnpackStr), pm, []api.WarehouseLocation{whAddr("ca", wh)}, rio.Monitor{})
+			})
+			if p2 != "" {
+				c.PropFail("panic-unpack", fmt.Sprintf("Unpack with placement mode %q panicked: %s", string(pm), p2), op)
+			} else if e2 != nil && strings.HasPrefix(catOf(e2), "uncategorized") {
+				c.PropFail("uncategorized-error", fmt.Sprintf("Unpack with placement mode %q: %v", string(pm), e2), op)
+			}
+			c.H("lib-placement:" + catOf(e1) + ":" + catOf(e2))
+			c.EmitR(op, "skip", "skip")
+		}
 	}
 }
